@@ -1,6 +1,7 @@
 package props
 
 import (
+	"regexp"
 	"strconv"
 	"fmt"
 	"sort"
@@ -298,7 +299,58 @@ func init() {
 		tpl := prog.Tpls[rapid.IntRange(0, len(prog.Tpls)-1).Draw(t, "tpl")].Name
 		return *cs, tpl
 	}
+	// (m) marker templates: source assembled from fragments that put newlines
+	// into text, comments, strings, interpolations, verbatim sections and tags;
+	// every name m<k> and number 9<k> occurs once, so the node that carries it
+	// must report the line and byte column at which it is found in the source;
+	// an unknown tag at the end must be reported at its name
+	markers := NewSub(p, "markers", func(c *Ctx, cs *c20Marker) *Fail {
+		r := c.SB.Do(&sb.Req{Op: "parse", Env: "raw", Entry: cs.Src, WantTree: true})
+		c.Ev.Count("markers\x00"+cs.Src, strings.Count(cs.Src, "\n") >= 2, "kind:markers", "status:"+r.Status, fmt.Sprintf("interp:%v", strings.Contains(cs.Src, "#{")))
+		if r.Fatal() || r.Status == "infra" {
+			return fatalFail(r)
+		}
+		at := func(idx int) (int, int) {
+			return 1 + strings.Count(cs.Src[:idx], "\n"), idx - (strings.LastIndex(cs.Src[:idx], "\n") + 1)
+		}
+		if cs.Bogus != "" {
+			line, col := at(strings.Index(cs.Src, cs.Bogus))
+			if r.Status != "error" {
+				return &Fail{Sig: "markers:unknown-tag-accepted", Expected: "syntax error", Observed: "accepted: " + cs.Src}
+			}
+			if !r.ErrHas || r.ErrLine != line || r.ErrOff != col {
+				return &Fail{Sig: "markers:error-position", Expected: fmt.Sprintf("error at line %d column %d", line, col),
+					Observed: fmt.Sprintf("%s (position %d:%d, has=%v)\nsource: %q", r.Err, r.ErrLine, r.ErrOff, r.ErrHas, cs.Src)}
+			}
+			return nil
+		}
+		if r.Status != "ok" {
+			return &Fail{Sig: "markers:well-formed-template-rejected", Expected: "parse ok", Observed: r.Err + "\nsource: " + cs.Src}
+		}
+		seen := map[string]int{}
+		for _, n := range r.Tree {
+			if (n.Kind == "NameExpr" && c20MarkerRe.MatchString(n.Text)) || (n.Kind == "NumberExpr" && strings.HasPrefix(n.Text, "9") && len(n.Text) >= 3) {
+				seen[n.Text]++
+				idx := strings.Index(cs.Src, n.Text)
+				if idx < 0 || strings.LastIndex(cs.Src, n.Text) != idx {
+					continue
+				}
+				line, col := at(idx)
+				if n.Line != line || n.Off != col {
+					return &Fail{Sig: "markers:pos:" + n.Kind, Expected: fmt.Sprintf("%s %s at line %d column %d", n.Kind, n.Text, line, col),
+						Observed: fmt.Sprintf("line %d column %d\nsource: %q", n.Line, n.Off, cs.Src)}
+				}
+			}
+		}
+		for _, mk := range cs.Marks {
+			if seen[mk] != 1 {
+				return &Fail{Sig: "markers:node-missing", Expected: "one node for " + mk, Observed: fmt.Sprintf("%d nodes\nsource: %q", seen[mk], cs.Src)}
+			}
+		}
+		return nil
+	})
 	p.Run = func(c *Ctx) {
+		markers.Rapid(c, c.Share(c.Pick(4000, 300000)), genMarkers)
 		sub.Rapid(c, c.Share(c.Pick(3000, 300000)), func(t *rapid.T) *c20Case {
 			cs, tpl := genSpelt(t)
 			return &c20Case{C14: cs, Tpl: tpl, Kind: "pos"}
@@ -419,3 +471,103 @@ func c20Inject(toks []m.Tok, pos []m.Pos, src string, cs *c20Case) (string, int,
 
 // c20BrokenNames are the names under which the broken template is loaded.
 var c20BrokenNames = []string{"broken.twig", "promo%20banner.html", "b%d.twig", "dir/sub file.txt", "ünï.twig", "100%.js"}
+
+// c20Marker is a template assembled from fragments with unique marker names.
+type c20Marker struct {
+	Src   string   `json:"src"`
+	Marks []string `json:"marks"`           // names and numbers that must each be one node
+	Bogus string   `json:"bogus,omitempty"` // the unknown tag name appended, if any
+}
+
+var c20MarkerRe = regexp.MustCompile(`^mk[0-9]+z$`)
+
+func genMarkers(t *rapid.T) *c20Marker {
+	cs := &c20Marker{}
+	k := 0
+	name := func() string {
+		k++
+		s := fmt.Sprintf("mk%dz", k)
+		cs.Marks = append(cs.Marks, s)
+		return s
+	}
+	mark := func() string {
+		if rapid.IntRange(0, 3).Draw(t, "num") == 0 {
+			k++
+			s := fmt.Sprintf("9%02d", k)
+			cs.Marks = append(cs.Marks, s)
+			return s
+		}
+		return name()
+	}
+	ws := func() string {
+		return rapid.SampledFrom([]string{" ", " ", "\n", "\r\n", "\t", "  \n ", "\n\n"}).Draw(t, "ws")
+	}
+	pick := func(xs ...string) string { return rapid.SampledFrom(xs).Draw(t, "pick") }
+	var frag func(d int) string
+	expr := func() string {
+		switch rapid.IntRange(0, 7).Draw(t, "expr") {
+		case 0:
+			return mark()
+		case 1:
+			return "'l1" + ws() + "l2'" + ws() + "~" + ws() + mark()
+		case 2:
+			// an interpolation with line breaks inside, a marker inside and one after
+			tail := pick("", "\n")
+			if rapid.IntRange(0, 2).Draw(t, "second") == 0 {
+				tail = "#{" + ws() + mark() + "}"
+			}
+			return "\"p#{" + ws() + mark() + ws() + "}q" + tail + "\"" + ws() + "~" + ws() + mark()
+		case 3:
+			return "{a:" + ws() + mark() + "," + ws() + "b:" + ws() + "[" + mark() + "," + ws() + mark() + "]}"
+		case 4:
+			return mark() + ws() + "is" + " defined" + ws() + "?" + ws() + mark() + ws() + ":" + ws() + "\"x" + ws() + "y\""
+		case 5:
+			return "cat(" + ws() + mark() + "," + ws() + "\"#{" + mark() + ws() + "~" + ws() + "'" + ws() + "'}\"" + ws() + ")" + "|" + "up"
+		case 6:
+			return "(" + ws() + mark() + ws() + "+" + ws() + mark() + ")" + ws() + "*" + ws() + mark()
+		}
+		return name() + "." + "k" + "[" + ws() + mark() + ws() + "]"
+	}
+	frag = func(d int) string {
+		switch rapid.IntRange(0, 9).Draw(t, "frag") {
+		case 0:
+			return pick("text", "a\nb", "\r\n", "é\n日本", "x { y } z\n")
+		case 1:
+			return "{#" + pick(" c ", "\n", " {{ m0 }}\n\n", "\r\n#") + "#}"
+		case 2, 3:
+			return "{{" + pick("", "-") + ws() + expr() + ws() + pick("", "-") + "}}"
+		case 4:
+			return "{% verbatim %}" + pick("{{ mk0z }}", "\n{% if %}\n", "") + "{% endverbatim %}"
+		case 5:
+			return "{%" + ws() + "set" + ws() + "v" + ws() + "=" + ws() + expr() + ws() + "%}"
+		case 6:
+			if d > 0 {
+				out := "{%" + ws() + "if" + ws() + expr() + ws() + "%}" + frag(d-1)
+				switch rapid.IntRange(0, 2).Draw(t, "branch") {
+				case 1:
+					out += "{% else %}" + frag(d-1)
+				case 2:
+					out += "{%" + ws() + "elseif" + ws() + expr() + ws() + "%}" + frag(d-1)
+				}
+				return out + "{%" + ws() + "endif" + ws() + "%}"
+			}
+		case 7:
+			if d > 0 {
+				return "{%" + ws() + "for" + ws() + "i" + ws() + "in" + ws() + expr() + ws() + "%}" + frag(d-1) + frag(d-1) + "{% endfor %}"
+			}
+		case 8:
+			return "{%" + ws() + "include" + ws() + "\"t#{" + ws() + mark() + ws() + "}\"" + ws() + "with" + ws() + "{x:" + ws() + mark() + "}" + ws() + "%}"
+		}
+		return "{% set c %}" + pick("cap\n", "") + "{{ " + mark() + " }}" + "{% endset %}"
+	}
+	var b strings.Builder
+	for i, n := 0, rapid.IntRange(1, 6).Draw(t, "nfrag"); i < n; i++ {
+		b.WriteString(frag(2))
+	}
+	if rapid.IntRange(0, 2).Draw(t, "bogus") == 0 {
+		cs.Bogus = "bogustag"
+		b.WriteString(pick("", "\n", " ") + "{%" + ws() + cs.Bogus + ws() + "%}")
+	}
+	cs.Src = b.String()
+	return cs
+}
